@@ -26,7 +26,7 @@ ASSUMPTIONS = ["the reference lexer decides which mutants are invalid; disputed 
                "parse-level fault) are dropped and counted, more than 0.5% is a harness error",
                "invalid escape sequences are judged by the grammar of cmake-language(7) (CMake reports them only when the "
                "command is evaluated)"]
-BUDGET = {"quick": {"shards": 4, "examples": 250}, "thorough": {"shards": 16, "examples": 110}}
+BUDGET = {"quick": {"shards": 8, "examples": 250}, "thorough": {"shards": 16, "examples": 110}}
 
 KINDS = ["stray-quote", "unterminated-quote", "bad-escape", "backslash-eof", "unterminated-bracket-comment", "extra-close",
          "missing-close", "extra-open", "bare-word"]
